@@ -3,10 +3,9 @@
    WF ci a (Model/Tensor.v): qtotal has one entry per charge; every _qdata row has `rank` entries; NO DUPLICATE row;
    every stored block obeys the CHARGE RULE make_valid(sum of leg charges) = qtotal; the cached claim _qdata_sorted is TRUTHFUL.
    Statements hold for every rank / number of blocks / number of charges.
-   NOT proved (oracle of harness/c02.py only): WF for outer's sortedness claim and for all operations not listed here;
-   LegCharge.sorted / bunched flags. *)
-From TenpyV Require Import Base.Prelude Model.Charge Model.Tensor Model.TensorOps.
-From TenpyV Require Import Proofs.ChargeP Proofs.TensorP Proofs.TensorP2.
+   NOT proved (oracle of harness/c02.py only): WF for all operations not listed here; LegCharge.sorted / bunched flags. *)
+From TenpyV Require Import Base.Prelude Model.Charge Model.Tensor Model.TensorOps Model.TensorDot Model.TakeSlice.
+From TenpyV Require Import Proofs.ChargeP Proofs.TensorP Proofs.TensorP2 Proofs.TensorP3 Proofs.TensorDotP Proofs.TakeSliceP.
 Open Scope Z_scope.
 
 (* ChargeInfo.make_valid: idempotent, compatible with addition and negation (what the qtotal arithmetic relies on) *)
@@ -40,6 +39,12 @@ Proof. exact isort_ssorted. Qed.
 Theorem T02_charge_rule_outer : forall ci a b, valid_ci ci -> WF ci a -> WF ci b -> charge_rule ci (outer ci a b).
 Proof. exact charge_rule_outer. Qed.
 
+(* outer returns a well-formed array: the grid of block pairs (rows of a changing fastest) has no duplicate row, obeys the
+   charge rule for qtotal = make_valid(qtotal_a + qtotal_b), and the claim the code makes for it,
+   _qdata_sorted = a._qdata_sorted and b._qdata_sorted  ("since grid is lex sorted"), is truthful *)
+Theorem T02_wf_outer : forall ci a b, valid_ci ci -> WF ci a -> WF ci b -> WF ci (outer ci a b).
+Proof. exact wf_outer. Qed.
+
 (* tensordot over the last k legs of a and the first k legs of b: every block the pairing by contracted qindices
    produces obeys the charge rule with qtotal = make_valid(qtotal_a + qtotal_b); so the look-up of compatible
    rows / columns by charge never has to drop a pair of blocks that fits together *)
@@ -48,6 +53,27 @@ Theorem T02_charge_rule_tensordot : forall ci k a b, valid_ci ci -> WF ci a -> W
   Forall2 (contractible ci) (skipn (rank a - k) (legs a)) (firstn k (legs b)) ->
   forall r, In r (tdot_rows k a b) -> row_ok ci (tdot_legs k a b) (tdot_qtot ci a b) r.
 Proof. exact charge_rule_tensordot. Qed.
+
+(* tensordot returns a well-formed array (Model/TensorDot.v: one block per distinct row of the pairing, rows sorted,
+   _qdata_sorted = True as _tensordot_worker sets it): one block per combination of charge blocks, charge rule, truthful claim *)
+Theorem T02_wf_tensordot : forall ci k a b, valid_ci ci -> WF ci a -> WF ci b -> (k <= rank a)%nat -> (k <= rank b)%nat ->
+  Forall2 (contractible ci) (skipn (rank a - k) (legs a)) (firstn k (legs b)) ->
+  WF ci (tensordot ci k a b).
+Proof. exact wf_tensordot. Qed.
+
+(* take_slice(i, axis) on one axis (Model/TakeSlice.v, algorithm read from the source, NOT correspondence-checked): the result is
+   well-formed; in particular `res._qdata_sorted is not changed` is correct: removing a constant column from the kept rows
+   keeps them distinct and lexsorted; the charge rule holds for qtotal - charge of the removed index *)
+Theorem T02_wf_take_slice : forall ci ax i a, valid_ci ci -> WF ci a -> (ax < rank a)%nat ->
+  length (nth (get_qindex (nth ax (legs a) dleg) i) (bch (nth ax (legs a) dleg)) []) = length ci ->
+  WF ci (take_slice ci ax i a).
+Proof. exact wf_take_slice. Qed.
+
+Theorem T02_qtotal_take_slice : forall ci ax i a,
+  qtot (take_slice ci ax i a)
+  = make_valid ci (vadd (qtot a) (vneg (leg_charge (nth ax (legs a) dleg) (get_qindex (nth ax (legs a) dleg) i)))) /\
+  legs (take_slice ci ax i a) = remove_at ax (legs a) /\ qsorted (take_slice ci ax i a) = qsorted a.
+Proof. exact take_slice_qtotal. Qed.
 
 (* documented total charges: unchanged / negated / sum *)
 Theorem T02_qtotal_rules : forall ci p s alpha a b,
@@ -75,6 +101,28 @@ Proof. exact (contractible_conj [4] ex2_leg). Qed.
 Example T02_example_tensordot_rows : tdot_rows 1 ex2_arr ex2_arr = [[1%nat; 1%nat]; [0%nat; 0%nat]].
 Proof. vm_compute. reflexivity. Qed.
 
+(* non-vacuity of T02_wf_outer / T02_wf_tensordot: ex2_arr (claim False) and its sorted version (claim True) *)
+Example T02_example_outer_claim :
+  qsorted (outer [4] (isort_qdata ex2_arr) (isort_qdata ex2_arr)) = true /\
+  rows (outer [4] (isort_qdata ex2_arr) (isort_qdata ex2_arr))
+  = [[0%nat; 0%nat; 0%nat; 0%nat]; [1%nat; 1%nat; 0%nat; 0%nat]; [0%nat; 0%nat; 1%nat; 1%nat]; [1%nat; 1%nat; 1%nat; 1%nat]].
+Proof. vm_compute. split; reflexivity. Qed.
+Example T02_example_tensordot_contractible :
+  Forall2 (contractible [4]) (skipn (rank ex2_arr - 1) (legs ex2_arr)) (firstn 1 (legs ex2_arr)).
+Proof. repeat constructor. apply (contractible_sym [4]); [repeat constructor; lia|]. exact (contractible_conj [4] ex2_leg). Qed.
+Example T02_example_tensordot_blocks : rows (tensordot [4] 1 ex2_arr ex2_arr) = [[0%nat; 0%nat]; [1%nat; 1%nat]].
+Proof. vm_compute. reflexivity. Qed.
+
+(* non-vacuity of T02_wf_take_slice: ex2_arr[:, 1] keeps the block [1; 1] -> row [1], qtotal 0 - (-3) = 3 mod 4 *)
+Example T02_example_take_slice :
+  length (nth (get_qindex (nth 1 (legs ex2_arr) dleg) 1) (bch (nth 1 (legs ex2_arr) dleg)) []) = length [4] /\
+  rows (take_slice [4] 1 1 ex2_arr) = [[1%nat]] /\ qtot (take_slice [4] 1 1 ex2_arr) = [3].
+Proof. vm_compute. repeat split; reflexivity. Qed.
+
+Print Assumptions T02_wf_take_slice.
+Print Assumptions T02_qtotal_take_slice.
+Print Assumptions T02_wf_outer.
+Print Assumptions T02_wf_tensordot.
 Print Assumptions T02_make_valid.
 Print Assumptions T02_wf_transpose.
 Print Assumptions T02_wf_conj.
